@@ -35,6 +35,11 @@ theorem lenOf_byte (b : Nat) (hb : b < 256) : b &&& FruTables.lenMask = b % 64 :
 
 theorem type_codes : FruTables.typeBcd = 1 ∧ FruTables.typeSix = 2 := by decide
 
+/-- the mask of the repaired `FruTypeLengthString.__init__` guard (any natural number, not only bytes) -/
+theorem guardMask_mod (b : Nat) : b &&& fieldGuardMask = b % 64 := by
+  have h : fieldGuardMask = 2 ^ 6 - 1 := by decide
+  rw [h, Nat.and_two_pow_sub_one_eq_mod]
+
 /-! ### BCD plus: the generated map is the table of the storage definition -/
 
 theorem bcdMap_spec : FruTables.bcdMap = (List.range 13).map bcdChar := by decide
